@@ -16,7 +16,7 @@ def classify_record(atoms, params=None):
     from matid.classification.classifier import Classifier
 
     params = dict(params or {})
-    rec = {"n": len(atoms), "error": "", "cls": "", "cls_again": "", "untouched": True, "has_cell": False, "basis": [],
+    rec = {"n": len(atoms), "error": "", "cls": "", "cls_again": "", "cls_hist": "", "untouched": True, "has_cell": False, "basis": [],
            "outliers": [], "region_known": False, "region": {"has": False, "nbasis": 0, "is2d": False, "nconn": 0}}
     min_cov = params.get("min_coverage", 0.5)
     fr = Fraction(str(min_cov))
@@ -68,6 +68,19 @@ def classify_record(atoms, params=None):
             rec["cls_again"] = type(Classifier(**params).classify(atoms)).__name__
         except Exception as e:
             rec["cls_again"] = "raised " + type(e).__name__
+        # history: one classifier object that classified the same geometry under another pbc pattern just before
+        try:
+            warm = Classifier(**params)
+            other = atoms.copy()
+            pb = atoms.get_pbc()
+            other.set_pbc([not pb[0], pb[1], not pb[2]] if abs(np.linalg.det(atoms.get_cell()[:])) > 1e-9 else pb)
+            try:
+                warm.classify(other)
+            except Exception:
+                pass
+            rec["cls_hist"] = type(warm.classify(atoms)).__name__
+        except Exception as e:
+            rec["cls_hist"] = "raised " + type(e).__name__
     finally:
         Classifier.cross_validate_region = orig
     # dimensionality of the wrapped structure, evaluated directly (not through the classifier's distance cache)
@@ -80,6 +93,22 @@ def classify_record(atoms, params=None):
     except Exception as e:
         rec["dim_wrapped"] = -7
         rec["dim_error"] = str(e)[:100]
+    # independent network (brute-force image sums) of the wrapped structure, for small inputs: lets TLC confirm that the
+    # dimensionality reference itself is the definition at the classifier's own threshold (TraceDim)
+    try:
+        if len(w) <= 40 and params.get("radii", "covalent") == "covalent":
+            from ase.data import covalent_radii
+
+            from .props.c09 import edge_list
+
+            thr = params.get("cluster_threshold", 3.5)
+            edges, amb = edge_list(w, covalent_radii[w.numbers], thr)
+            if edges is not None and not amb and len(edges) <= 2500:
+                d_, cl_ = matid.geometry.get_dimensionality(w, thr, radii="covalent", return_clusters=True)
+                rec["dimref"] = {"ev": "edim", "n": len(w), "pbc": [bool(x) for x in w.get_pbc()], "edges": edges, "dim": dim_enc(d_),
+                                 "clusters": [sorted(int(i) + 1 for i in c_) for c_ in cl_]}
+    except Exception:
+        pass
     return rec
 
 
